@@ -6,6 +6,7 @@ require (
 	go.opentelemetry.io/collector/connector v0.124.0
 	go.opentelemetry.io/collector/connector/xconnector v0.0.0
 	go.opentelemetry.io/collector/consumer v1.30.0
+	go.opentelemetry.io/collector/consumer/consumererror v0.0.0-00010101000000-000000000000
 	go.opentelemetry.io/collector/consumer/xconsumer v0.124.0
 	go.opentelemetry.io/collector/internal/fanoutconsumer v0.124.0
 	go.opentelemetry.io/collector/pdata v1.30.0
